@@ -92,7 +92,8 @@ def run(res, tier, seed, replay):
               ("test", [".", "-run", "TestAdd"]),
               ("build", ["-tags", "-tiny", "./x"]),
               ("build", ["--tiny", "."]), ("build", ["-seed=AAAAAAAAAAA", "."]),
-              ("run", ["-race", "main.go", "-v"]), ("build", []), ("test", ["-c", "-o", "t.bin"])]
+              ("run", ["-race", "main.go", "-v"]), ("run", [".", "a", "-b", "c"]), ("run", ["main.go", "x.go", "y", "z.go"]), ("run", ["-tags", "t", "./cmd/x", "arg"]),
+              ("build", []), ("test", ["-c", "-o", "t.bin"])]
     cases = list(corpus)
     while len(cases) < n_or:
         cmd = r.choice(["build", "build", "test", "run"])
@@ -115,7 +116,7 @@ def run(res, tier, seed, replay):
             fv_meta.append((flags, name))
     outs4 = orc.batch(fv_reqs)
 
-    header = ("From Verif Require Import Base.Bytes Model.Flags Model.FlagsGen Proofs.FlagsProofs.\nFrom Verif Require Gen.FlagTables.\nOpen Scope N_scope.\n"
+    header = ("From Verif Require Import Base.Bytes Model.Flags Model.FlagsGen Proofs.FlagsProofs.\nFrom Verif Require Gen.FlagTables Gen.StdTables.\nOpen Scope N_scope.\n"
               "Definition eqsl (a b : list str) : bool := beq (concat (map (fun s => 0 :: s) a)) (concat (map (fun s => 0 :: s) b)) && Nat.eqb (length a) (length b).\n")
     lits = []
     hist = {"build": 0, "test": 0, "run": 0, "len": {}, "valued_consumed": 0, "ddash": 0, "inline_eq": 0, "malformed_or_rejected": 0}
@@ -215,7 +216,9 @@ def run(res, tier, seed, replay):
                "if has_help_flag (fst (split_flags bools argv)) then false else "
                "if expect_rej || rej then negb (Bool.eqb expect_rej rej) else "
                "let la := list_args Gen.FlagTables.garble_build_flags fwd bools cmd [] argv in "
-               "negb (eqsl (firstn (length la) largv) la && eqsl gargv (go_args Gen.FlagTables.garble_build_flags bools cmd tx [] argv)) end)")
+               "negb (eqsl (firstn (length la) largv) la && "
+               "forallb (fun x => mem x Gen.StdTables.runtime_and_linknamed) (skipn (length la) largv) && "   # nothing of the user's but the listed packages; the rest is the folded-in std list
+               "eqsl gargv (go_args Gen.FlagTables.garble_build_flags bools cmd tx [] argv)) end)")
     bad_bb = vlib.coq_eval_cases("c20d", header, "str * list str * list str * list str * str * bool", bb_lits, bbcheck)
     # property on black-box observations: a command line the go command accepts must not be rejected,
     # and garble's own flags in flag position (known by construction of the corpus/generator) must be
